@@ -91,6 +91,26 @@ static int sweep_len() {
   { const size_t dflt = 100 << 10; LogSetMaxLength(dflt);
     for (size_t L : {8191ul, 8192ul, 65535ul, 65536ul, dflt - 1, dflt, dflt + 1}) for (int with_args = 0; with_args < 3; with_args++) one_case(dflt, L, 0, with_args); }
   LogSetMaxLength(100 << 10);
+  // ALIGNMENT sweep (wave 8): where a record's bytes end relative to the pipe's buffer boundaries. One record of EVERY length 0..2B+8 and
+  // two records of every pair of lengths 0..B+8 through a pipe with B-byte buffers (B = 64 and the non-power-of-two 100), so that whatever
+  // the size of the record header, every residue of "bytes handed to the pipe" modulo B occurs - in particular streams that end exactly on a
+  // buffer boundary (the last chunk the back-end sees is a FULL buffer and nothing follows it). Everything logged must be written when disable() returns.
+  for (size_t B : {64ul, 100ul}) {
+    auto align_case = [&](const std::vector<size_t> &ls) {
+      SyncRec s; AsyncRec a; AsyncSink::Config cfg; cfg.buff_size = B; cfg.buff_min_num = 1; cfg.buff_max_num = 3; cfg.interval = 100; a.setConfig(cfg);
+      s.setLevel(LOG_LEVEL_TRACE); a.setLevel(LOG_LEVEL_TRACE); s.enable(); a.enable();
+      std::string desc = "align buff_size=" + std::to_string(B) + " lens="; for (size_t l : ls) desc += std::to_string(l) + ",";
+      hx::set_current(desc); std::string exp;
+      for (size_t k = 0; k < ls.size(); k++) { std::string text(ls[k], 'x'); for (size_t i = 0; i < ls[k]; i++) text[i] = (char)('a' + (i + k) % 26);
+        LogPrintfFunc("mod", "fn", "dir/f.cpp", 7, LOG_LEVEL_INFO, 0, text.c_str());
+        exp += line_head(LOG_LEVEL_INFO, vsec, "mod") + "fn() " + (ls[k] ? text + " " : std::string()) + "-- f.cpp:7\n"; }
+      s.disable(); a.disable(); N++;
+      if (s.recs.size() != ls.size()) printf("@VIOL sig=align-sweep-record-count-%zu-of-%zu :: %s\n", s.recs.size(), ls.size(), desc.c_str());
+      else if (a.out != exp) printf("@VIOL sig=async-sink-output-wrong-after-disable(record-end-vs-buffer-boundary) :: %s %s\n", desc.c_str(), first_diff(a.out, exp).c_str());
+    };
+    for (size_t L = 0; L <= 2 * B + 8; L++) align_case({L});
+    for (size_t L1 = 0; L1 <= B + 8; L1++) for (size_t L2 = 0; L2 <= B + 8; L2++) align_case({L1, L2});
+  }
   // degenerate and extreme arguments: no message at all (fmt == NULL), no module name, no function name, no file name, level outside 0..7,
   // and LONG names (template / lambda __func__ of 63..300 characters, a 64-character module, a 200-character file behind a 1500-character directory).
   // Reading: such a call is still ONE log call; the record it produces must be whole (every field a sink prints is readable and the
